@@ -1512,7 +1512,7 @@ _BAD_LEXICALS = [' 5 ', 'abc', '', '+1', '1.0', 'TRUE', 'true', '-3', '٣', 'P1D
 def extra_cases(ctx, tab: Table, enc: Enc, ops):
     rng = ctx.subrng('extra')
     for ci, cls in enumerate(tab.clist):
-        if tab.keys[ci] in NO_MODEL or g.extra_raw:
+        if tab.keys[ci] in NO_MODEL:
             continue
         pl, el = tab.props[ci], tab.entries[ci]['props']
         # (1) optional members with a class-level default, absent in the XML: the read value is a copy of the default
